@@ -32,6 +32,8 @@ class Source:
     self.consulted: Dict[str, str] = {}
     self._pyfiles: Optional[List[str]] = None
     self.inlined: Dict[str, int] = {}  # file -> number of private-helper call sites inlined before analysis
+    self.renamed: Dict[str, int] = {}  # file -> number of renamed anchors recovered through the inventory
+    self._renames = None
 
   # ------------------------------------------------------------------ files
   def exists(self, rel: str) -> bool:
@@ -82,7 +84,14 @@ class Source:
     except SyntaxError as e:
       raise AnalysisError(f'cannot parse {rel}: {e}') from e
     if os.environ.get('VZ_NO_INLINE') != '1' and not is_test_file(rel):
-      from vzstatic import inline
+      from vzstatic import inline, renorm
+      if self._renames is None:
+        self._renames = renorm.global_renames(self, inline.anchors())
+      if self._renames:
+        self.renamed[rel] = renorm.apply(tree, self._renames.get(rel, {}), True)
+        for other, ren in self._renames.items():
+          if other != rel:
+            renorm.apply(tree, ren, False)
       try:
         self.inlined[rel] = inline.normalise(tree)
       except RecursionError as e:  # pragma: no cover
@@ -154,3 +163,36 @@ def unparse(node: ast.AST, limit: int = 160) -> str:
   if limit and len(s) > limit:
     s = s[: limit - 3] + '...'
   return s
+
+
+def local_names(fn: ast.AST) -> set:
+  """Parameters (except self/cls) and every name bound inside a function."""
+  out = set()
+  for x in ast.walk(fn):
+    if isinstance(x, ast.Name) and isinstance(x.ctx, (ast.Store, ast.Del)):
+      out.add(x.id)
+    elif isinstance(x, ast.arg) and x.arg not in ('self', 'cls'):
+      out.add(x.arg)
+    elif isinstance(x, ast.ExceptHandler) and x.name:
+      out.add(x.name)
+  return out
+
+
+def stable_text(node: ast.AST, limit: int = 0) -> str:
+  """Source text of an expression with the enclosing function's local names replaced by `~`: a key built from it
+  survives a rename of locals."""
+  import copy
+  fn = next((a for a in ancestors(node) if isinstance(a, (ast.FunctionDef, ast.AsyncFunctionDef))), None)
+  if fn is None:
+    return unparse(node, limit=limit)
+  loc_ = local_names(fn)
+  parent_ = getattr(node, '_vz_parent', None)
+  try:
+    node._vz_parent = None  # keep deepcopy local to the expression
+    c = copy.deepcopy(node)
+  finally:
+    node._vz_parent = parent_
+  for x in ast.walk(c):
+    if isinstance(x, ast.Name) and x.id in loc_:
+      x.id = '~'
+  return unparse(c, limit=limit)
